@@ -68,10 +68,9 @@ impl LinuxSllHeader {
             buffer
         };
 
-        Ok(
-            // SAFETY: Safe as the buffer contains exactly the needed LinuxSllHeader::LEN bytes.
-            unsafe { LinuxSllHeaderSlice::from_slice_unchecked(&buffer) }.to_header(),
-        )
+        // validate the content (packet type & arp hardware type) the same
+        // way "from_slice" does
+        Ok(LinuxSllHeader::from_bytes(buffer)?)
     }
 
     /// Serialize the header to a given slice. Returns the unused part of the slice.
